@@ -250,6 +250,14 @@ func (x *Exec) evalCall(env *SpecEnv, e *ECall) SVal {
 			conj = append(conj, Eq(x.sat(sv.Base, At(sv.Off, IntLit(int64(i)))), IntLit(int64(lit.Val[i]))))
 		}
 		return SVal{VScalar{And(conj...)}, boolT}
+	case "addr":
+		// addr(x.f): the address of a field that is itself a struct value (an embedded mutex): the identity under
+		// which &x.f appears in the ghost locksets
+		if len(e.Args) != 1 {
+			sfail("addr(x.f)")
+		}
+		pl := x.exprPlace(env, e.Args[0])
+		return SVal{VScalar{x.refOfPtr(VPtr{pl})}, intT}
 	case "hint":
 		// hint(e): a trigger device. Semantically true for every e (axiom below, itself triggered only by a
 		// hint term), so guarding a clause with it changes nothing; as an explicit pattern { hint(f) } it makes
